@@ -10,6 +10,9 @@ args = sys.argv[1:]
 seed, pid = args[0], args[1]
 rest = args[2:]
 slot = "0"
+record = "--record" in rest
+if record:
+    rest.remove("--record")
 if "--slot" in rest:
     i = rest.index("--slot"); slot = rest[i + 1]; del rest[i:i + 2]
 wt, cache, out = "/tmp/scratch_repo" + slot, "/tmp/scratch_cache" + slot, "/tmp/scratch_out" + slot
@@ -29,4 +32,13 @@ for l in (p.stdout + p.stderr).split("\n"):
     if l.startswith(("VIOLATION", "FAILED-OBLIGATION", "UNDECIDED", "KNOWN-FINDING", "[" + pid + "]")):
         print(l[:400])
 print("exit", p.returncode)
+if record and seed != "none" and not os.path.exists(seed):
+    import json, time
+    out_l = (p.stdout + p.stderr).split("\n")
+    det = {"seed": seed, "property": pid, "tier": "quick", "exit": p.returncode, "detected": p.returncode == 1,
+           "how": "tools/seed_scratch.py: patch applied to a scratch git worktree of /repo HEAD, ./check %s %s run with VERIF_REPO pointing at it (own cache, own evidence directory); /repo untouched" % (pid, " ".join(rest)),
+           "violations": [l for l in out_l if l.startswith("VIOLATION")],
+           "failed_obligations": [l for l in out_l if l.startswith("FAILED-OBLIGATION")],
+           "undecided": [l[:300] for l in out_l if l.startswith("UNDECIDED")]}
+    json.dump(det, open(os.path.join(V, "seeded", seed, "detection.json"), "w"), indent=1)
 subprocess.run(["git", "-C", wt, "checkout", "--", "."], check=True)
